@@ -78,7 +78,7 @@ func mkOuter(threads [][]string, shutdown string) *mc.Exec {
 			return // its parent context
 		}
 		if cause != errOuterCause {
-			mc.Fail("reader %s: context cancelled with cause %v, not the configured cause; history=%v", r.name, cause, hist)
+			mc.Fail("reader context cancelled by the lock with a cause other than the configured one\nreader %s: cause %v; history=%v", r.name, cause, hist)
 		}
 		if shutdownCalled {
 			return // shutdown
@@ -90,7 +90,7 @@ func mkOuter(threads [][]string, shutdown string) *mc.Exec {
 				return // a writer, not before its request time + grace
 			}
 		}
-		mc.Fail("reader %s: context cancelled by t=%v although it did not release, its parent was not cancelled, there is no shutdown and no writer's request time + grace (%v) has passed (writers=%s); history=%v", r.name, now, ocGrace, fmtWriters(writers), hist)
+		mc.Fail("reader context cancelled although it did not release, its parent was not cancelled, there is no shutdown and no writer's request time + grace has passed\nreader %s at t=%v, grace %v, writers=%s; history=%v", r.name, now, ocGrace, fmtWriters(writers), hist)
 	}
 	onAdmit := func(r *ocReader) {
 		log("%s+", r.name)
@@ -108,7 +108,7 @@ func mkOuter(threads [][]string, shutdown string) *mc.Exec {
 		}
 		for _, w := range writers {
 			if w.granted && !w.unlocking {
-				mc.Fail("reader %s admitted with a live context between writer %s's grant and its unlock; history=%v", r.name, w.name, hist)
+				mc.Fail("reader admitted with a live context between a writer's grant and its unlock\nreader %s, writer %s; history=%v", r.name, w.name, hist)
 			}
 		}
 	}
@@ -119,7 +119,7 @@ func mkOuter(threads [][]string, shutdown string) *mc.Exec {
 				if shutdownCalled {
 					notes["two-writers-across-shutdown"] = true
 				} else {
-					mc.Fail("two writers: %s granted while %s has not unlocked; history=%v", w.name, w2.name, hist)
+					mc.Fail("two writers hold the lock while it is running\n%s granted while %s has not unlocked; history=%v", w.name, w2.name, hist)
 				}
 			}
 		}
@@ -132,7 +132,7 @@ func mkOuter(threads [][]string, shutdown string) *mc.Exec {
 					notes["W-beside-live-R-across-shutdown"] = true
 					continue
 				}
-				mc.Fail("writer %s granted while earlier reader %s has neither released nor had its context cancelled; history=%v", w.name, r.name, hist)
+				mc.Fail("writer granted while an earlier reader has neither released nor had its context cancelled\nwriter %s, reader %s; history=%v", w.name, r.name, hist)
 			}
 			justify(r)
 		}
@@ -237,15 +237,15 @@ func mkOuter(threads [][]string, shutdown string) *mc.Exec {
 				parkedLazy++
 				continue
 			}
-			return fmt.Errorf("deadlock: caller %s never returned (blocked on %s); parked=%v; history=%v", t.Name, t.WaitOn, e.Parked(), hist)
+			return fmt.Errorf("deadlock: a correctly paired caller never returned\n%s (blocked on %s); parked=%v; history=%v", t.Name, t.WaitOn, e.Parked(), hist)
 		}
 		if !shutdownCalled {
 			reg, slot := lock.McOuterState(o)
 			if reg != parkedLazy {
-				return fmt.Errorf("%d reader(s) still registered at final quiescence but %d hold the lock (an RLock that reported an error, or a release, left something held); history=%v", reg, parkedLazy, hist)
+				return fmt.Errorf("readers still registered at final quiescence that do not hold the lock (an RLock that reported an error, or a release, left something held)\n%d registered, %d holding; history=%v", reg, parkedLazy, hist)
 			}
 			if slot != 0 {
-				return fmt.Errorf("the hold slot is still taken at final quiescence although every writer unlocked; history=%v", hist)
+				return fmt.Errorf("the hold slot is still taken at final quiescence although every writer unlocked\nhistory=%v", hist)
 			}
 		}
 		var ns []string
@@ -324,11 +324,11 @@ func outerScenarios() []hx.Scenario {
 	}
 	all := append(append([][]string{}, plain...), delayed...)
 	for _, sd := range []string{"", "s0", "s5"} {
-		// 2 callers, 1..2 operations each, no start delay: quick; with start delays: quick when <= 2 operations in total
+		// 2 callers, 1..2 operations each: quick when <= 3 operations in total (<= 2 with start delays or a late shutdown)
 		for _, name := range combos(all, 2, canonPlain, nil) {
 			th := parseScen(name)
 			hasZ := strings.Contains(name, "Z")
-			add(name, sd, hasZ && nops(th) > 2, true, 2, 2)
+			add(name, sd, nops(th) > 3 || (nops(th) > 2 && (hasZ || sd == "s5")), true, 2, 2)
 		}
 		// 3 callers x 1 operation (no delay: quick; with delays: thorough)
 		for _, name := range combos(all, 3, canonPlain, func(th [][]string) bool { return nops(th) == 3 }) {
@@ -338,9 +338,18 @@ func outerScenarios() []hx.Scenario {
 		for _, name := range combos(plain, 3, canonPlain, func(th [][]string) bool { return nops(th) == 4 }) {
 			add(name, sd, true, true, 2, 2)
 		}
-		// preemption bounding for the smallest: 2 callers x 1 operation
-		for _, name := range combos(seqs(ops, 1), 2, canonPlain, nil) {
-			add(name, sd, false, false, 1, 2)
+		// preemption bounding (every order of forced switches is free, so the
+		// helper goroutines make it expensive) only for the smallest: 2 callers
+		// x 1 operation, no shutdown; bound 1 quick, bound 2 thorough (bound 1
+		// with a parent-cancelling thread)
+		if sd == "" {
+			for _, name := range combos(seqs(ops, 1), 2, canonPlain, nil) {
+				if strings.Contains(name, "Rx") {
+					add(name, sd, true, false, 1, 1)
+				} else {
+					add(name, sd, false, false, 1, 2)
+				}
+			}
 		}
 	}
 	return out
